@@ -6,9 +6,9 @@ package main
 
 import (
 	"fmt"
-	"sync/atomic"
 	"go/types"
 	"strings"
+	"sync/atomic"
 	"time"
 
 	"golang.org/x/tools/go/ssa"
@@ -1013,7 +1013,9 @@ func registerIntercepts(g *Engine) {
 	}
 
 	// ----- fmt / logging -----
-	ic["fmt.Sprintf"] = func(e *Exec, fn *ssa.Function, a []Value) Value { return e.miniFormat(a[0].(StringVal), a[1].(SliceVal)) }
+	ic["fmt.Sprintf"] = func(e *Exec, fn *ssa.Function, a []Value) Value {
+		return e.miniFormat(a[0].(StringVal), a[1].(SliceVal))
+	}
 	ic["fmt.Sprint"] = func(e *Exec, fn *ssa.Function, a []Value) Value { return StringVal{b: nil, opq: true} }
 	ic["fmt.Sprintln"] = ic["fmt.Sprint"]
 	ic["fmt.Errorf"] = func(e *Exec, fn *ssa.Function, a []Value) Value { return e.errorf(a[0].(StringVal), a[1].(SliceVal)) }
